@@ -2,6 +2,7 @@ import json,sys
 pid=sys.argv[1]
 import os
 avoid=json.load(open('/tmp/avoid.json')).get(pid,[]) if os.path.exists('/tmp/avoid.json') and len(sys.argv)>2 else []
+focus=json.load(open('/tmp/focus.json')).get(pid,[]) if os.path.exists('/tmp/focus.json') and len(sys.argv)>2 else []
 avoid_txt=('\n\nAn earlier regression for this property has already been written; yours must be a DIFFERENT idea (different mechanism, different place in the code). Already used:\n'+'\n'.join('  * '+a for a in avoid)) if avoid else ''
 files={'C03':'src/presentation/create.rs, src/presentation/verify.rs, src/presentation.rs, src/presentation/*.rs, src/verifier/*.rs, src/knox/bbs/pok_signature.rs, src/knox/ps/pok_signature.rs','C04':'src/presentation/create.rs, src/presentation/verify.rs, src/presentation/schema.rs, src/statement/*.rs, src/issuer.rs, src/credential/schema.rs, src/verifier/revocation.rs','C08':'src/presentation/range.rs, src/verifier/range.rs, src/utils.rs, src/claim/number.rs, src/statement/range.rs','C11':'src/presentation/verify.rs, src/verifier/*.rs, src/knox/bbs/pok_signature_proof.rs, src/knox/ps/pok_signature_proof.rs, src/knox/accumulator/vb20/proof.rs','C17':'src/knox/bbs/signature.rs, src/knox/bbs/pok_signature.rs, src/knox/bbs/pok_signature_proof.rs, src/knox/ps/signature.rs, src/knox/ps/pok_signature.rs, src/knox/ps/pok_signature_proof.rs, src/knox/short_group_sig_core/proof_committed_builder.rs','C01':'src/presentation/verify.rs, src/verifier/signature.rs, src/knox/bbs/pok_signature_proof.rs, src/knox/ps/pok_signature_proof.rs',
 'C02':'src/presentation/verify.rs, src/presentation.rs, src/presentation/signature.rs, src/verifier/signature.rs, src/statement/signature.rs',
@@ -27,6 +28,8 @@ Quantifier: {p['quantifier']['text']}
 Relevant code: {files.get(pid) or ', '.join(p['anchors']['files'])}. Integration tests live in `tests/` (see tests/flow.rs, tests/revocation.rs, tests/range.rs for API usage).
 
 {avoid_txt}
+
+{('Prefer to place your change in one of these files (they have not been used yet): '+', '.join(focus)+'.') if focus else ''}
 
 YOUR TASK: make ONE small, realistic change to the library source (the kind of slip a maintainer could make in a refactor or "optimisation") that BREAKS this property, while
   (a) the crate still compiles,
